@@ -149,6 +149,12 @@ def classify(ob, job):
     f = loc.get("file", "")
     if desc.startswith("CANARY"):
         return "canary", []
+    for kv in (job.get("kfmap", "") or "").split(","):       # kfmap=<description prefix>:<KF-id> : generated obligations that are a recorded finding
+        if ":" in kv:
+            pref, kid = kv.split(":", 1)
+            if desc.startswith(pref):
+                ob["description"] = desc + " [" + kid + "]"
+                return "kf", (["C20", "C02"] if pref == "noexcept_escape" else job["props"])
     m = re.match(r"((?:C\d\d,?)+): ", desc)
     if m:
         props = m.group(1).split(",")
